@@ -47,6 +47,8 @@ def bytes_alphabet(compact, max_len):
     else:
         lens = [0, 1, 127, 128, 255, 256, 32767]
     out = [b"\x00" * n for n in lens if n <= max_len]
+    if max_len >= 32767:
+        out.append(b"\x00" * 32768)  # byte strings have no int16 limit in either form: one size beyond what a string may have
     out += [b"\xff", b"\x80\x00\xff"]
     return out
 
